@@ -33,6 +33,8 @@ pub enum ModelParseError {
 
     #[error("Stream was not found")]
     StreamNotFound,
+    #[error("Number of values per PDF does not fit in usize")]
+    PdfLengthOverflow,
     #[error("NUM_STREAMS does not match the number of stream types")]
     StreamCountMismatch,
     #[error("Position was not found")]
@@ -124,7 +126,10 @@ fn parse_data_section(
         input,
         position.duration_tree,
         position.duration_pdf,
-        global.num_states * 2,
+        global
+            .num_states
+            .checked_mul(2)
+            .ok_or(ModelParseError::PdfLengthOverflow)?,
     )?;
 
     let stream_models: Vec<StreamModels> = global
@@ -144,8 +149,12 @@ fn parse_data_section(
                 input,
                 pos.stream_tree,
                 pos.stream_pdf,
-                stream_data.vector_length * stream_data.num_windows * 2
-                    + (stream_data.is_msd as usize),
+                stream_data
+                    .vector_length
+                    .checked_mul(stream_data.num_windows)
+                    .and_then(|n| n.checked_mul(2))
+                    .and_then(|n| n.checked_add(stream_data.is_msd as usize))
+                    .ok_or(ModelParseError::PdfLengthOverflow)?,
             )?;
 
             let gv_model = if stream_data.use_gv {
@@ -153,7 +162,10 @@ fn parse_data_section(
                     input,
                     pos.gv_tree.ok_or(ModelParseError::UseGvError)?,
                     pos.gv_pdf.ok_or(ModelParseError::UseGvError)?,
-                    stream_data.vector_length * 2,
+                    stream_data
+                        .vector_length
+                        .checked_mul(2)
+                        .ok_or(ModelParseError::PdfLengthOverflow)?,
                 )?;
                 Some(gv_model)
             } else {
